@@ -324,7 +324,29 @@ static void case_btoznx128(Out& out, const std::vector<uint64_t>& lanes, const i
   out.endcase(v);
 }
 
+// lanes of a given integer value (canonical residues, optionally lifted to lazy non-canonical representatives)
+static void lanes_of(std::vector<uint64_t>& out, s128 v, Rng& rng, int lazy) {
+  for (int k = 0; k < 4; k++) {
+    s128 q = (s128)QS[k];
+    uint64_t r = (uint64_t)(((v % q) + q) % q);
+    if (lazy) r += QS[k] * (uint64_t)rng.below(((uint64_t)1 << 33));
+    out.push_back(r);
+  }
+}
+
 STREAM(q1_conv) {
+  {
+    // the centring boundary of the CRT lift: (Q-1)/2 is the largest representative, (Q+1)/2 must come back as -(Q-1)/2
+    s128 Q = (s128)QS[0] * QS[1] * QS[2] * QS[3];
+    for (int lazy = 0; lazy < 2; lazy++) {
+      std::vector<uint64_t> lanes;
+      s128 vals[] = {(Q - 1) / 2, (Q + 1) / 2, (Q - 1) / 2 - 1, (Q + 1) / 2 + 1, -((Q - 1) / 2), Q - 1, 0, 1, -1, (Q - 1) / 2 - (s128)rng.below(1000), (Q + 1) / 2 + (s128)rng.below(1000)};
+      for (s128 v : vals) lanes_of(lanes, v, rng, lazy);
+      while ((lanes.size() / 4) % 2) lanes_of(lanes, 0, rng, lazy);
+      case_btoznx128(out, lanes, nullptr);
+      out.count("crt_boundary");
+    }
+  }
   const int reps = thorough ? 40 : 6;
   for (int rep = 0; rep < reps; rep++) {
     // int64 -> b, int64 -> c, and the round trip int64 -> b -> int128
